@@ -290,3 +290,67 @@ Definition pinned_fetch_panic (O : oracle) (n : needle) (key : option bytes) (fu
   n_compressed n && is_gzipped_content (glib O) (n_data n) &&
   match o_gunzip O (n_data n) with GzHdrErr => true | _ => false end &&
   (match key with Some _ => true | None => full end).
+
+(* ------------------------------------------------------------------------- *)
+(* appended after the C33 audit (nothing above this line was changed)         *)
+
+(* the bytes ReadUrlAsStream has handed to fn when it returns, error or not: on the
+   plain path every Read result goes to fn before the error is looked at
+   (`m, err = reader.Read(buf); fn(buf[:m])`), so a gzip body error still delivers
+   the partial output; readEncryptedUrl calls fn only on success *)
+Definition fetch_handed (O : oracle) (n : needle) (key : option bytes) (gz full : bool) (off size : N) : bytes :=
+  match key with
+  | Some _ => match fetch_gen true O n key gz full off size with FOk b => b | _ => [] end
+  | None =>
+      let r := server_get O n {| g_accept_gzip := full; g_range := if full then None else Some (off, size) |} in
+      if 400 <=? rs_status r then []
+      else if rs_ce_gzip r then
+             match o_gunzip O (rs_body r) with GzOk o => o | GzBodyErr p => p | GzHdrErr => [] end
+           else rs_body r
+  end.
+
+(* util.ReadUrl(fileUrl, cipherKey, isContentCompressed, isFullChunk, offset, size, buf)
+   with len(buf) = buflen: the first n bytes of buf, or the error.  Encrypted:
+   readEncryptedUrl with fn = copy into buf.  Plain: the status is looked at first,
+   then `reader.Read(buf[i:])` until EOF, an error, or buf is full (then the rest is
+   drained and its error dropped).  A gzip body error is only seen when buf is not
+   full before the stream ends (compress/flate hands out everything it decoded
+   together with the error when the output is below its 32 KiB window). *)
+Definition read_url (repaired : bool) (O : oracle) (n : needle) (key : option bytes) (gz full : bool)
+           (off size buflen : N) : fres :=
+  match key with
+  | Some _ =>
+      match fetch_gen repaired O n key gz full off size with
+      | FOk b => FOk (firstn (N.to_nat buflen) b)
+      | other => other
+      end
+  | None =>
+      let r := server_get O n {| g_accept_gzip := full; g_range := if full then None else Some (off, size) |} in
+      if 400 <=? rs_status r then FErr
+      else if rs_ce_gzip r then
+             match o_gunzip O (rs_body r) with
+             | GzOk o => FOk (firstn (N.to_nat buflen) o)
+             | GzBodyErr p => if buflen <? len p then FOk (firstn (N.to_nat buflen) p) else FErr
+             | GzHdrErr => if repaired then FErr else FPanic
+             end
+           else FOk (firstn (N.to_nat buflen) (rs_body r))
+  end.
+
+(* util.ReadUrlAsReaderCloser(fileUrl, rangeHeader) followed by ReadAll of the reader
+   it returns (rangeHeader "" = None: Accept-Encoding gzip; else "bytes=off-(off+size-1)").
+   The `defer reader.Close()` before the return only closes the flate state of a
+   gzip.Reader (compress/flate's Close returns the pending error, it does not stop reads). *)
+Definition read_closer (repaired : bool) (O : oracle) (n : needle) (rng : option (N * N)) : fres :=
+  let r := server_get O n {| g_accept_gzip := match rng with None => true | Some _ => false end; g_range := rng |} in
+  if 400 <=? rs_status r then FErr else read_body repaired O r.
+
+(* known finding 0 of C33: the caller passed isInputCompressed but the data, although it
+   starts with the gzip magic, is not a gzip stream (doUploadData ignores the
+   DecompressData error and uploads anyway) *)
+Definition false_gzip_promise (O : oracle) (u : upload_in) : bool :=
+  u_ic u && is_gzipped_content (glib O) (u_data u) &&
+  match o_gunzip O (u_data u) with GzOk _ => false | _ => true end.
+
+(* what DecompressData leaves in clearData on such an input *)
+Definition gunzip_partial (O : oracle) (d : bytes) : bytes :=
+  match o_gunzip O d with GzOk o => o | GzBodyErr p => p | GzHdrErr => [] end.
